@@ -12,10 +12,19 @@ use std::time::UNIX_EPOCH;
 // ghost clock: every clock read / query returns the next tick and is logged
 // ---------------------------------------------------------------------------------------------
 static mut TICK: i64 = 0;
-static mut ASOF_READS: u32 = 0;
-static mut ASOF_CLOCK_ID: libc::clockid_t = -1;
-static mut ASOF_TICK: i64 = -1;
+const LOG: usize = 4;
+/// every successful clock read of the iteration: (tick returned as the reading, clock id)
+static mut READ_TICKS: [i64; LOG] = [-1; LOG];
+static mut READ_IDS: [libc::clockid_t; LOG] = [-1; LOG];
+static mut N_READS: usize = 0;
+/// every query to chronyd of the iteration: tick at which it was issued; the k-th query's reply is
+/// tagged with stratum k (1-based), so a forwarded report names the query it answers
+static mut QUERY_TICKS: [i64; LOG] = [-1; LOG];
+static mut N_QUERIES: usize = 0;
+/// tick of the most recent query (the grace / PHC ordering obligations of C13 refer to it)
 static mut QUERY_TICK: i64 = -1;
+/// some query of the iteration was answered ("chronyd does not answer" = none was)
+static mut ANSWERED: bool = false;
 static mut PHC_TICK: i64 = -1;
 static mut GRACE_TICK: i64 = -1;
 static mut GRACE_CALLS: u32 = 0;
@@ -35,10 +44,13 @@ fn ghost_clock_gettime(clock_id: libc::clockid_t) -> Result<libc::timespec, cloc
         if CLOCK_FAILS {
             return Err(clock_bound_shm::ShmError::SegmentNotInitialized);
         }
-        ASOF_READS += 1;
-        ASOF_CLOCK_ID = clock_id;
-        ASOF_TICK = next_tick();
-        Ok(libc::timespec { tv_sec: ASOF_TICK, tv_nsec: 0 })
+        let t = next_tick();
+        if N_READS < LOG {
+            READ_TICKS[N_READS] = t;
+            READ_IDS[N_READS] = clock_id;
+        }
+        N_READS += 1;
+        Ok(libc::timespec { tv_sec: t, tv_nsec: 0 })
     }
 }
 
@@ -54,6 +66,7 @@ static mut SENT_ASOF_SEC: i64 = -1;
 static mut SENT_ASOF_NSEC: i64 = -1;
 static mut SENT_LEAP: u16 = 0;
 static mut SENT_REFID: u32 = 0;
+static mut SENT_STRATUM: u16 = 0;
 
 fn stub_send<K: Hash + Eq, M>(_this: &DispatchBox<K, M>, channel_id: &K, message: M) -> Result<(), mpsc::SendError<M>> {
     // every DispatchBox of this crate is DispatchBox<ChannelId, Message>
@@ -70,6 +83,7 @@ fn stub_send<K: Hash + Eq, M>(_this: &DispatchBox<K, M>, channel_id: &K, message
                     SENT_ASOF_NSEC = as_of.tv_nsec;
                     SENT_LEAP = t.leap_status;
                     SENT_REFID = t.ref_id;
+                    SENT_STRATUM = t.stratum;
                 }
                 Message::ChronyNotRespondingGracePeriod => SENT_KIND = 2,
                 Message::ChronyNotResponding => SENT_KIND = 3,
@@ -133,8 +147,21 @@ fn any_tracking() -> Tracking {
     }
 }
 
+/// (the i-th logged clock read is a MONOTONIC read whose value is the as-of of the forwarded report,
+///  ... and it happened before the q-th query was issued)
+fn read_matches(i: usize, q: usize) -> (bool, bool) {
+    unsafe {
+        let is = i < N_READS && READ_TICKS[i] == SENT_ASOF_SEC && SENT_ASOF_NSEC == 0 && READ_IDS[i] == CLOCK_MONOTONIC;
+        let before = is && q >= 1 && q <= LOG && q <= N_QUERIES && READ_TICKS[i] < QUERY_TICKS[q - 1];
+        (is, before)
+    }
+}
+
 struct GhostPoller {
     reply: Option<Tracking>,
+    /// what chronyd would answer to any further query of the same iteration (the code as it stands
+    /// issues one query per iteration; a retry must not weaken the stamping rule)
+    later_reply: Option<Tracking>,
     grace: bool,
     queries: u32,
 }
@@ -144,8 +171,19 @@ impl ChronyOperations for GhostPoller {
         self.queries += 1;
         unsafe {
             QUERY_TICK = next_tick();
+            if N_QUERIES < LOG {
+                QUERY_TICKS[N_QUERIES] = QUERY_TICK;
+            }
+            N_QUERIES += 1;
         }
-        self.reply.take()
+        let mut r = if self.queries == 1 { self.reply.take() } else { self.later_reply.take() };
+        if let Some(t) = r.as_mut() {
+            unsafe {
+                ANSWERED = true;
+            }
+            t.stratum = if self.queries < 0xffff { self.queries as u16 } else { 0xffff };
+        }
+        r
     }
     fn is_within_grace_period(&self) -> bool {
         unsafe {
@@ -181,7 +219,12 @@ fn c13_poller_iteration() {
     let t = any_tracking();
     let (t_refid, t_leap) = (t.ref_id, t.leap_status);
     let grace: bool = kani::any();
-    let poller = GhostPoller { reply: if has_reply { Some(t) } else { None }, grace, queries: 0 };
+    let later_has_reply: bool = kani::any();
+    let mut t_later = any_tracking();
+    // the same chronyd state answers a retry: same reference and leap status
+    t_later.ref_id = t_refid;
+    t_later.leap_status = t_leap;
+    let poller = GhostPoller { reply: if has_reply { Some(t) } else { None }, later_reply: if later_has_reply { Some(t_later) } else { None }, grace, queries: 0 };
     let phc_configured: bool = kani::any();
     let phc_refid: u32 = kani::any();
     let phc_ok: bool = kani::any();
@@ -205,11 +248,14 @@ fn c13_poller_iteration() {
     } else {
         kani::assert(n_writer == 1, "C13.select.one_message_per_poll");
         unsafe {
-            kani::assert(ASOF_READS == 1, "C12.poller.exactly_one_clock_read");
-            kani::assert(ASOF_CLOCK_ID == CLOCK_MONOTONIC, "C12.poller.as_of_is_the_monotonic_clock");
-            kani::assert(ASOF_TICK < QUERY_TICK, "C12.poller.as_of_read_before_querying_chronyd");
+            // the log above holds LOG entries; an iteration that reads the clock or queries chronyd more
+            // often than that is outside what this harness can follow (reported as undecided, not as a violation)
+            kani::assert(N_READS <= LOG && N_QUERIES <= LOG, "harness capacity: more than 4 clock reads / queries in one iteration is unsupported");
         }
-        let phc_applies = phc_configured && has_reply && phc_refid == t_refid;
+        // "chronyd does not answer" = no query of this iteration was answered (one query per iteration in
+        // the code as it stands, so this is `has_reply`)
+        let answered = unsafe { ANSWERED };
+        let phc_applies = phc_configured && answered && phc_refid == t_refid;
         // the age of the last good answer is judged when the outcome is known, not before the
         // (blocking, up to 3 s) query: "FreeRunning-class only while the last good answer is < 5 s old"
         if unsafe { GRACE_CALLS } > 0 {
@@ -220,7 +266,7 @@ fn c13_poller_iteration() {
                 }
             }
         }
-        if !has_reply {
+        if !answered {
             kani::assert(unsafe { GRACE_CALLS } == 1, "C13.select.grace_consulted_once_on_silence");
             kani::assert(kind == if grace { 2 } else { 3 }, "C13.select.silence_is_grace_then_unknown_class");
             kani::assert(unsafe { PHC_READS } == 0, "C13.select.no_phc_read_without_a_report");
@@ -244,7 +290,14 @@ fn c13_poller_iteration() {
         }
         if kind == 1 {
             unsafe {
-                kani::assert(SENT_ASOF_SEC == ASOF_TICK && SENT_ASOF_NSEC == 0, "C12.poller.report_carries_the_early_reading");
+                // C12: "the as-of instant attached to a chrony report is a monotonic-clock reading taken before
+                // the request to chronyd is issued" -- the request being the one this report answers
+                let q = SENT_STRATUM as usize; // 1-based ordinal of the query whose reply is forwarded
+                let (r0, r1, r2, r3) = (read_matches(0, q), read_matches(1, q), read_matches(2, q), read_matches(3, q));
+                let is_reading = r0.0 || r1.0 || r2.0 || r3.0;
+                let before_its_query = r0.1 || r1.1 || r2.1 || r3.1;
+                kani::assert(is_reading, "C12.poller.as_of_is_a_monotonic_clock_reading");
+                kani::assert(before_its_query, "C12.poller.as_of_read_before_the_query_it_stamps");
                 kani::assert(SENT_LEAP == t_leap && SENT_REFID == t_refid, "C13.select.report_forwarded_unchanged");
             }
         }
